@@ -278,6 +278,31 @@ class Gen:
                 self.combs.append(Comb(f"{base}v{i}", t, [], self.fields(0, 3, [], [], [])))
             self.unions.append(t)
 
+    def add_chain(self):
+        """a nat handed down through two or three nat-templated types, each giving some bits a meaning, and a
+        constructor (or function) whose local mask feeds the chain: the bits at the bottom are 'used' at the top"""
+        rng = self.rng
+        depth = rng.choice([2, 2, 3])
+        prev = None
+        for d in range(depth):
+            c = self.fresh("ch")
+            t = upfirst(c)
+            fs = [Field("x", self.scalar(), ("n", rng.randrange(32)))]
+            if rng.random() < 0.5:
+                fs.append(Field("y", T("true"), ("n", rng.randrange(32))))
+            if prev:
+                fs.insert(rng.randrange(len(fs) + 1), Field("d", T(rng.choice(prev[:2]), [T("n")], bare=rng.random() < 0.2)))
+            self.combs.append(Comb(c, t, [("n", "#")], fs))
+            self.nattmpl.append((c, t, 1))
+            prev = (c, t)
+        c = self.fresh("top")
+        fs = [Field("m", T("#")), Field("a", self.scalar(), ("m", rng.randrange(32))), Field("b", T(prev[1], [T("m")]))]
+        if rng.random() < 0.5:
+            self.combs.append(Comb(c, upfirst(c), [], fs))
+            self.simple.append((c, upfirst(c)))
+        else:
+            self.combs.append(Comb(self.fresh("fnc"), "", [], fs, isfun=True, res=self.result_type()))
+
     def add_function(self):
         rng = self.rng
         name = self.fresh("fn")
@@ -296,8 +321,10 @@ class Gen:
         res = self.result_type(natvars if rng.random() < 0.3 else [])
         self.combs.append(Comb(name, "", [], fs, isfun=True, res=res))
 
-    def schema(self, ntypes=None, nfuns=None):
+    def schema(self, ntypes=None, nfuns=None, chain=False):
         rng = self.rng
+        if chain:
+            self.add_chain()
         for _ in range(ntypes if ntypes is not None else rng.randrange(3, 9)):
             self.add_type()
         for _ in range(nfuns if nfuns is not None else rng.randrange(1, 5)):
